@@ -247,6 +247,40 @@ mut("c16_destructor_skips_chain", "C16", "key.c",
         }
     }
     ABTI_ktable_mem_header *p_header =""", "ABTI_ktable_free runs destructors only for the first element of each slot")
+mut("c17_new_rank_scan_unlocked", "C17", "stream.c",
+    """                                     ABTI_xstream *p_newxstream, int rank)
+{
+    ABTD_spinlock_acquire(&p_global->xstream_list_lock);
+
+    if (rank == -1) {""",
+    """                                     ABTI_xstream *p_newxstream, int rank)
+{
+    if (rank == -1) {""", "smallest-unused-rank scan runs before the list lock is taken",
+    extra=[("stream.c", """    /* Set the rank */
+    p_newxstream->rank = rank;
+    xstream_add_xstream_list(p_global, p_newxstream);""", """    /* Set the rank */
+    ABTD_spinlock_acquire(&p_global->xstream_list_lock);
+    p_newxstream->rank = rank;
+    xstream_add_xstream_list(p_global, p_newxstream);"""),
+           ("stream.c", """            if (p_xstream->rank == rank) {
+                ABTD_spinlock_release(&p_global->xstream_list_lock);
+                return ABT_FALSE;""", """            if (p_xstream->rank == rank) {
+                return ABT_FALSE;""")])
+mut("c17_free_keeps_count", "C17", "stream.c",
+    """    xstream_remove_xstream_list(p_global, p_xstream);
+    p_global->num_xstreams--;""",
+    """    xstream_remove_xstream_list(p_global, p_xstream);""", "freeing a stream does not decrement the stream count")
+mut("c17_change_rank_accepts_taken", "C17", "stream.c",
+    """    while (p_next) {
+        if (p_next->rank == rank) {
+            ABTD_spinlock_release(&p_global->xstream_list_lock);
+            return ABT_FALSE;
+        } else if (p_next->rank > rank) {""",
+    """    while (p_next) {
+        if (p_next->rank == rank && rank > 3) {
+            ABTD_spinlock_release(&p_global->xstream_list_lock);
+            return ABT_FALSE;
+        } else if (p_next->rank > rank) {""", "ABT_xstream_set_rank grants a taken rank when it is small")
 mut("c01_fifo_no_second_empty_check", "C01", "pool/thread_queue.h",
     None, None, "placeholder")
 mut("c03_join_no_final_wait", "C03", "thread.c",
